@@ -9,16 +9,20 @@
 package main
 
 import (
+	"context"
+	"encoding/json"
 	"fmt"
 	"go/ast"
 	"go/parser"
 	"go/token"
 	"os"
+	"os/exec"
 	"path/filepath"
 	"runtime"
 	"sort"
 	"strconv"
 	"strings"
+	"sync"
 	"sync/atomic"
 	"time"
 
@@ -33,6 +37,8 @@ var argAlpha = []string{"a", "/", "0", "-1", "1", "999999999999", "1s", "x=y", "
 // ==/!= comparisons of the registering package (its keyword vocabulary).
 func vocab(repo string) map[string][]string {
 	out := map[string][]string{}
+	dirOf := map[string]string{}        // directive -> directory of the registering package
+	wordsOfDir := map[string][]string{} // directory -> words of the package in it
 	filepath.Walk(repo, func(p string, info os.FileInfo, err error) error {
 		if err != nil || !info.IsDir() {
 			return nil
@@ -84,6 +90,18 @@ func vocab(repo string) map[string][]string {
 								}
 							}
 						}
+					case *ast.CompositeLit:
+						// keys of map literals (tables of supported keywords such as event names)
+						if _, isMap := x.Type.(*ast.MapType); isMap && len(x.Elts) <= 12 { // (large tables are data, not keywords)
+							for _, el := range x.Elts {
+								if kv, ok := el.(*ast.KeyValueExpr); ok {
+									if bl, ok := kv.Key.(*ast.BasicLit); ok && bl.Kind == token.STRING {
+										s, _ := strconv.Unquote(bl.Value)
+										words[s] = true
+									}
+								}
+							}
+						}
 					case *ast.CaseClause:
 						for _, e := range x.List {
 							if bl, ok := e.(*ast.BasicLit); ok && bl.Kind == token.STRING {
@@ -118,20 +136,50 @@ func vocab(repo string) map[string][]string {
 			sort.Strings(ws)
 			for _, n := range names {
 				out[n] = ws
+				dirOf[n] = p
 			}
+			wordsOfDir[p] = ws
 			if strings.HasSuffix(p, "caskethttp/httpserver") {
 				out["<shared>"] = ws
 			}
 		}
 		return nil
 	})
+	// packages below a directive's own package (onevent/hook for on) belong to its vocabulary
+	for n, d := range dirOf {
+		if d == repo {
+			continue
+		}
+		have := map[string]bool{}
+		for _, w := range out[n] {
+			have[w] = true
+		}
+		for sub, ws := range wordsOfDir {
+			if strings.HasPrefix(sub, d+string(filepath.Separator)) {
+				for _, w := range ws {
+					if !have[w] {
+						have[w] = true
+						out[n] = append(out[n], w)
+					}
+				}
+			}
+		}
+		sort.Strings(out[n])
+	}
 	return out
 }
 
 type cfgCase struct {
-	Casketfile string `json:"casketfile"`
-	Got        string `json:"got"`
+	Casketfile string   `json:"casketfile"`
+	Got        string   `json:"got"`
+	Earlier    []string `json:"configurations_run_just_before_in_the_same_process,omitempty"`
 }
+
+// the last few configurations of this process (a hang may be caused by what an earlier one left behind)
+var (
+	recentMu sync.Mutex
+	recent   []string
+)
 
 var (
 	curStart atomic.Int64
@@ -160,12 +208,29 @@ func isEnvError(err error) bool {
 func runConfig(rep *kit.Report, dirName, text string, realStart bool, local map[string]int64) {
 	rep.Eval(1)
 	curText.Store(&text)
+	recentMu.Lock()
+	recent = append(recent, text)
+	if len(recent) > 6 {
+		recent = recent[1:]
+	}
+	recentMu.Unlock()
 	curStart.Store(time.Now().UnixNano())
-	defer curStart.Store(0)
+	defer func() {
+		if f := os.Getenv("C11_SLOWLOG"); f != "" { // (debugging aid)
+			if d := time.Duration(time.Now().UnixNano() - curStart.Load()); d > 100*time.Millisecond {
+				if fh, err := os.OpenFile(f, os.O_APPEND|os.O_CREATE|os.O_WRONLY, 0o644); err == nil {
+					fmt.Fprintf(fh, "%v %q\n", d, text)
+					fh.Close()
+				}
+			}
+		}
+		curStart.Store(0)
+		casket.VerifPurgeEventHooks()
+	}()
 	input := casket.CasketfileInput{Contents: []byte(text), Filepath: "Casketfile", ServerTypeName: "http"}
 	vErr, vPanic := guarded(func() error { return casket.ValidateAndExecuteDirectives(input, nil, true) })
 	if vPanic != nil {
-		rep.Violation("C11/panic/validate/"+dirName, fmt.Sprintf("validation panicked: %v", vPanic), cfgCase{text, fmt.Sprint(vPanic)})
+		rep.Violation("C11/panic/validate/"+dirName, fmt.Sprintf("validation panicked: %v", vPanic), cfgCase{text, fmt.Sprint(vPanic), nil})
 		local["panic"]++
 		return
 	}
@@ -179,7 +244,7 @@ func runConfig(rep *kit.Report, dirName, text string, realStart bool, local map[
 		guarded(func() error { inst.ShutdownCallbacks(); return nil })
 	}
 	if ePanic != nil {
-		rep.Violation("C11/panic/execute/"+dirName, fmt.Sprintf("loading panicked: %v", ePanic), cfgCase{text, fmt.Sprint(ePanic)})
+		rep.Violation("C11/panic/execute/"+dirName, fmt.Sprintf("loading panicked: %v", ePanic), cfgCase{text, fmt.Sprint(ePanic), nil})
 		local["panic"]++
 		return
 	}
@@ -189,7 +254,7 @@ func runConfig(rep *kit.Report, dirName, text string, realStart bool, local map[
 			e = vErr
 		}
 		if !isEnvError(e) {
-			rep.Violation("C11/validate-vs-load-disagree/"+dirName, fmt.Sprintf("validate says %v, load says %v", vErr, eErr), cfgCase{text, fmt.Sprintf("validate=%v load=%v", vErr, eErr)})
+			rep.Violation("C11/validate-vs-load-disagree/"+dirName, fmt.Sprintf("validate says %v, load says %v", vErr, eErr), cfgCase{text, fmt.Sprintf("validate=%v load=%v", vErr, eErr), nil})
 		}
 		local["validate/load differ (environment)"]++
 		return
@@ -209,13 +274,13 @@ func runConfig(rep *kit.Report, dirName, text string, realStart bool, local map[
 		return err
 	})
 	if sPanic != nil {
-		rep.Violation("C11/panic/start/"+dirName, fmt.Sprintf("Start panicked: %v", sPanic), cfgCase{text, fmt.Sprint(sPanic)})
+		rep.Violation("C11/panic/start/"+dirName, fmt.Sprintf("Start panicked: %v", sPanic), cfgCase{text, fmt.Sprint(sPanic), nil})
 		local["panic"]++
 		return
 	}
 	if sErr != nil {
 		if !isEnvError(sErr) {
-			rep.Violation("C11/validate-vs-start-disagree/"+dirName, fmt.Sprintf("validate accepted, Start failed: %v", sErr), cfgCase{text, sErr.Error()})
+			rep.Violation("C11/validate-vs-start-disagree/"+dirName, fmt.Sprintf("validate accepted, Start failed: %v", sErr), cfgCase{text, sErr.Error(), nil})
 		}
 		local["start failed (environment)"]++
 	} else {
@@ -230,14 +295,44 @@ func runConfig(rep *kit.Report, dirName, text string, realStart bool, local map[
 	}
 }
 
+// confirmHang runs the configurations in a fresh process and reports whether that process failed to finish in 90 s.
+func confirmHang(texts []string, scratch string) bool {
+	b, _ := json.Marshal(texts)
+	f, err := os.CreateTemp("", "c11-confirm-*.json")
+	if err != nil {
+		return false
+	}
+	f.Write(b)
+	f.Close()
+	defer os.Remove(f.Name())
+	ctx, cancel := context.WithTimeout(context.Background(), 90*time.Second)
+	defer cancel()
+	cmd := exec.CommandContext(ctx, os.Args[0], "-tier", "quick", "-worker", "0", "-nworkers", "1")
+	cmd.Env = append(os.Environ(), "C11_TEXTFILE="+f.Name())
+	cmd.WaitDelay = 2 * time.Second
+	out, _ := cmd.CombinedOutput()
+	if strings.Contains(string(out), "CONFIRM-DONE") {
+		return false
+	}
+	return ctx.Err() != nil || strings.Contains(string(out), "CONFIRM-HANG")
+}
+
 func main() {
 	rep := kit.NewReport("C11", "exploration",
 		"every registered http directive x argument lists of length 0..3 (thorough 4) over an 18-value lexical-class alphabet, plus sub-blocks of one (thorough two) line(s) starting with each keyword of the directive's own vocabulary (string literals of its case clauses and comparisons, extracted from the source at run time) x 0..2 (3) arguments, after 0..1 (2) head arguments; each configuration validated, loaded and, when accepted, really started on an ephemeral port; distinct_nontrivial = outcome classes per directive")
 	if !rep.IsWorker() {
 		rep.Assume("commands named by on/startup/shutdown are drawn from the same harmless alphabet; files are relative to a scratch working directory")
-		rep.RunWorkers(16)
+		// (validation leaves a certificate cache with its maintenance goroutine behind for every configuration - harmless for
+		// `casket -validate`, which exits, but it adds up here: many short-lived shards keep each worker process small)
+		rep.MaxParallel = 16
+		shards := 64
+		if rep.Thorough() {
+			shards = 512
+		}
+		rep.RunWorkers(shards)
 		rep.Finish()
 	}
+	runtime.GOMAXPROCS(2) // (one configuration at a time per shard; 16 shards run side by side)
 	kit.Init()
 	repo := os.Getenv("VERIF_REPO")
 	if repo == "" {
@@ -249,17 +344,55 @@ func main() {
 	os.WriteFile(filepath.Join(scratch, "ex.txt"), []byte("u:{SHA}W6ph5Mm5Pz8GgiULbPgzG37mj9g=\n"), 0o644)
 	os.Chdir(scratch)
 	os.Setenv("CASKETPATH", filepath.Join(scratch, "assets"))
-	// watchdog: a configuration that does not finish in 20 s ends the worker
+	// watchdog: a configuration that does not finish in 20 s, or during which the heap grows by 2 GB, ends the worker
 	go func() {
+		var lastSt int64
+		var heap0 uint64
 		for {
 			time.Sleep(250 * time.Millisecond)
 			st := curStart.Load()
 			var m runtime.MemStats
 			runtime.ReadMemStats(&m)
-			if (st != 0 && time.Now().UnixNano()-st > int64(20*time.Second)) || m.HeapAlloc > 3<<30 {
+			if st != lastSt {
+				lastSt, heap0 = st, m.HeapAlloc
+			}
+			if st != 0 && (time.Now().UnixNano()-st > int64(20*time.Second) || (m.HeapAlloc > heap0 && m.HeapAlloc-heap0 > 2<<30)) {
 				t := *curText.Load()
-				rep.Violation("C11/hang", "validating/loading/starting did not finish within 20 s (or exhausted memory)", cfgCase{t, "hang"})
+				if os.Getenv("C11_TEXTFILE") != "" {
+					// this is a confirmation run: say so and end (its parent decides)
+					fmt.Printf("CONFIRM-HANG %q\n", t)
+					os.Exit(3)
+				}
+				why := fmt.Sprintf("running for %.1f s, heap grew by %d MB meanwhile", float64(time.Now().UnixNano()-st)/1e9, (int64(m.HeapAlloc)-int64(heap0))>>20)
+				recentMu.Lock()
+				all := append([]string{}, recent...)
+				recentMu.Unlock()
+				earlier := all
+				if len(earlier) > 0 {
+					earlier = earlier[:len(earlier)-1]
+				}
+				// a stall of this process is only believed if the same configurations, in the same order, also
+				// fail to finish within 90 s in a fresh process, twice (the machine may simply be overloaded)
+				confirmed := 0
+				for try := 0; try < 2; try++ {
+					if !confirmHang(all, scratch) {
+						break
+					}
+					confirmed++
+				}
+				if confirmed == 2 {
+					rep.Violation("C11/hang", "validating/loading/starting did not finish within 20 s (or kept allocating), and not within 90 s in two fresh processes either: "+why, cfgCase{t, "hang: " + why, earlier})
+				} else {
+					rep.Class("stall-not-reproduced-in-a-fresh-process")
+				}
 				rep.Capped("worker stopped after a hang")
+				os.Chdir("/")
+				os.RemoveAll(scratch)
+				rep.Finish()
+			}
+			if m.HeapAlloc > 8<<30 {
+				// accumulated over many configurations (see the note at RunWorkers): not a finding, but this shard stops here
+				rep.Capped(fmt.Sprintf("shard stopped: heap %d MB accumulated over %d configurations", m.HeapAlloc>>20, rep.Evals()))
 				os.Chdir("/")
 				os.RemoveAll(scratch)
 				rep.Finish()
@@ -298,8 +431,26 @@ func main() {
 			shortLists = append(shortLists, l)
 		}
 	}
+	if f := os.Getenv("C11_TEXTFILE"); f != "" {
+		// confirmation run (also a debugging aid): the listed configurations, in order, in this fresh process
+		b, _ := os.ReadFile(f)
+		var texts []string
+		if json.Unmarshal(b, &texts) != nil {
+			texts = []string{string(b)}
+		}
+		local := map[string]int64{}
+		t0 := time.Now()
+		for _, t := range texts {
+			runConfig(rep, "confirm", t, true, local)
+		}
+		fmt.Printf("CONFIRM-DONE %v %v\n", local, time.Since(t0))
+		os.Exit(0)
+	}
 	item := 0
 	for _, d := range dirs {
+		if only := os.Getenv("C11_DIRS"); only != "" && !strings.Contains(","+only+",", ","+d+",") {
+			continue // (debugging aid)
+		}
 		kws := voc[d]
 		if d == "startup" || d == "shutdown" {
 			kws = voc["on"]
@@ -333,6 +484,32 @@ func main() {
 			}
 			rep.ClassN(out)
 		}
+		// no block, first argument one of the directive's own keywords (event names, policies, modes ...)
+		for _, kw := range kws {
+			item++
+			if !rep.Mine(item) {
+				continue
+			}
+			if rep.Expired() {
+				rep.Capped("deadline")
+				break
+			}
+			local := map[string]int64{}
+			for _, al := range shortLists {
+				text := fmt.Sprintf("localhost:0 {\n\t%s %s %s\n}\n", d, kw, strings.Join(al, " "))
+				runConfig(rep, d, text, len(al) <= 1, local) // (a real start costs milliseconds: only for the shorter lines)
+				// the same line twice in one site
+				if len(al) <= 1 {
+					text = fmt.Sprintf("localhost:0 {\n\t%s %s %s\n\t%s %s %s\n}\n", d, kw, strings.Join(al, " "), d, kw, strings.Join(al, " "))
+					runConfig(rep, d, text, len(al) == 0, local)
+				}
+			}
+			out := map[string]int64{}
+			for k, v := range local {
+				out[d+" <keyword> ...: "+k] = v
+			}
+			rep.ClassN(out)
+		}
 		// with block: head args of length <= 1 (thorough 2), lines = keyword + short arg list
 		var heads [][]string
 		for _, l := range argLists {
@@ -362,6 +539,10 @@ func main() {
 				}
 			}
 		}
+		// stray brace tokens inside a block line (the parser counts braces per token, the directives per line)
+		for _, kw := range append([]string{"a"}, kws...) {
+			lines = append(lines, kw+" } "+kw, "} "+kw, kw+" {", "{ "+kw, kw+" }", kw+" { }")
+		}
 		// second lines of two-line blocks: each own keyword with no argument, "a" or "/"
 		var second []string
 		for _, kw := range kws {
@@ -383,7 +564,7 @@ func main() {
 					l2s = lines[:min(len(lines), 40)]
 				} else if l1 != "" && len(h) == 0 || (len(h) == 1 && h[0] == "/") {
 					// quick tier: two-line blocks with a first line of at most one argument
-					if len(strings.Fields(l1)) <= 2 && inOwn[strings.Fields(l1+" x")[0]] {
+					if len(strings.Fields(l1)) <= 2 && inOwn[strings.Fields(l1 + " x")[0]] {
 						l2s = append([]string{""}, second...)
 					}
 				}
@@ -397,6 +578,11 @@ func main() {
 					}
 					text := fmt.Sprintf("localhost:0 {\n\t%s %s {\n%s\t}\n}\n", d, strings.Join(h, " "), body)
 					runConfig(rep, d, text, !rep.Thorough(), local)
+					if strings.ContainsAny(body, "{}") {
+						// a stray brace changes what closes what: also without the block's own closing line, and with one more
+						runConfig(rep, d, fmt.Sprintf("localhost:0 {\n\t%s %s {\n%s}\n", d, strings.Join(h, " "), body), false, local)
+						runConfig(rep, d, fmt.Sprintf("localhost:0 {\n\t%s %s {\n%s\t}\n\t}\n}\n", d, strings.Join(h, " "), body), false, local)
+					}
 				}
 			}
 			out := map[string]int64{}
